@@ -573,8 +573,9 @@ class ACSE:
             primitive = self.dul.receive_pdu(wait=True, timeout=self.acse_timeout)
             if primitive is None:
                 # No response received within timeout window
-                # (unless a concurrent abort() has already aborted and reported it)
-                if not self.assoc.is_aborted:
+                # (unless a concurrent abort() has already aborted and reported
+                # it, or a concurrent release() the release)
+                if not self.assoc.is_aborted and not self.assoc.is_released:
                     LOGGER.info("Aborting Association")
                     self.send_abort(0x02)
                     self.assoc.is_aborted = True
@@ -586,7 +587,7 @@ class ACSE:
 
             if isinstance(primitive, (A_ABORT, A_P_ABORT)):
                 # Received A-ABORT/A-P-ABORT during association release
-                if not self.assoc.is_aborted:
+                if not self.assoc.is_aborted and not self.assoc.is_released:
                     LOGGER.info("Association Aborted")
                     self.assoc.is_aborted = True
                     self.assoc.is_established = False
